@@ -1,7 +1,9 @@
 #!/bin/bash
-# runs every claimed check in the thorough tier, up to $1 (default 5) at a time; one line each
+# usage: run_thorough.sh [parallel] [ids...] — runs claimed checks in the thorough tier, up to N at a time
 cd /verif
-P=${1:-5}
+P=${1:-5}; shift
+IDS="$@"
+[ -z "$IDS" ] && IDS=$(python3 -c "import json; print(' '.join(c['property_id'] for c in json.load(open('MANIFEST.json'))['checks']))")
 mkdir -p .scratch
-python3 -c "import json; print('\n'.join(c['property_id'] for c in json.load(open('MANIFEST.json'))['checks']))" | \
+echo $IDS | tr ' ' '\n' | \
   xargs -P $P -I{} bash -c 'start=$(date +%s); out=$(./check {} --tier thorough 2>&1); rc=$?; echo "{} rc=$rc $(( $(date +%s) - start ))s :: $(echo "$out" | grep -E "held|VIOLATION|KNOWN" | tail -1 | cut -c1-160)" | tee -a .scratch/thorough.log'
